@@ -86,6 +86,9 @@ class Obj:
         self.fields = dict(fields or {})
 
 
+IMMUTABLE_CLASSES = {"ImmutableKnotVector"}     # value objects: shared between forked states, identity is meaningful
+
+
 class Const:
     __slots__ = ("py",)
 
@@ -190,7 +193,7 @@ class State:
         # objects are mutable records: copy field maps so forks do not interfere
         remap = {}
         for k, v in s.env.items():
-            if isinstance(v, Obj):
+            if isinstance(v, Obj) and v.cls not in IMMUTABLE_CLASSES:
                 if id(v) not in remap:
                     remap[id(v)] = Obj(v.cls, v.fields)
                 s.env[k] = remap[id(v)]
@@ -1127,6 +1130,10 @@ class Engine:
             self.assign(gen.target, Num(lo.z + i, True), sub, exits)
         else:
             seq = self.eval(gen.iter, st, exits)
+            if isinstance(seq, Obj):
+                h = self.c.calls.get("iter:%s" % seq.cls)
+                if h is not None:
+                    seq = h.handler(self, st, [seq], {}, node, exits)
             if not isinstance(seq, Seq):
                 raise Unsupported("comprehension over %r" % (seq,))
             n = seq.n
